@@ -330,30 +330,45 @@ func (l *log) GetByTime(start time.Time) (message.Message, error) {
 	l.readersMu.RLock()
 	defer l.readersMu.RUnlock()
 
+	// Walk the segments from newest to oldest, remembering the best answer so far:
+	// an older segment can end with the same timestamp as the one found here, and an
+	// empty segment (a fresh head after rollover or tail delete) holds no answer at all.
+	var found message.Message
+	var haveFound, endsBefore bool
+	var startsAfter *reader
+
+SEARCH:
 	for i := len(l.readers) - 1; i >= 0; i-- {
 		rdr := l.readers[i]
 
 		switch msg, err := rdr.GetByTime(ts, tctx); err {
 		case nil:
-			return msg, nil
+			found, haveFound, startsAfter = msg, true, nil
 		case index.ErrTimeBeforeStart:
-			// not in this segment, try the rest
-			if i == 0 {
-				return rdr.Get(message.OffsetOldest)
-			}
+			// every message of this segment is at or after ts
+			haveFound, startsAfter = false, rdr
+		case index.ErrTimeIndexEmpty:
+			// nothing in this segment, try the rest
 		case index.ErrTimeAfterEnd:
-			// time is between end of this and begin next
-			if i < len(l.readers)-1 {
-				nextRdr := l.readers[i+1]
-				return nextRdr.Get(message.OffsetOldest)
-			}
-			return message.Invalid, errTimeNotFound
+			// this segment, and all before it, end before ts
+			endsBefore = true
+			break SEARCH
 		default:
 			return message.Invalid, err
 		}
 	}
 
-	return message.Invalid, errTimeNotFound
+	switch {
+	case haveFound:
+		return found, nil
+	case startsAfter != nil:
+		return startsAfter.Get(message.OffsetOldest)
+	case endsBefore:
+		return message.Invalid, errTimeNotFound
+	default:
+		// no messages at all
+		return message.Invalid, index.ErrTimeIndexEmpty
+	}
 }
 
 func (l *log) OffsetByTime(start time.Time) (int64, time.Time, error) {
